@@ -144,6 +144,17 @@ reg(
     "DESIGN.md §3 C02",
 )
 
+reg(
+    "C05",
+    "exploration",
+    "Hypothesis-generated files and structure-preserving byte mutants of fixtures/generated files; idempotence oracle over n load/save cycles + purity of save",
+    "Every fixture, generated projects and synths, and mutants whose CVAL / option / link / note bytes are replaced by arbitrary (incl. "
+    "out-of-range) values are loaded and saved; from Y = save(load(X)) on, n further cycles must reproduce Y byte for byte, saving must not "
+    "change the object's snapshot and two saves must be identical. thorough sweeps every CVAL of every fixture over 6 boundary values.",
+    "Unloadable mutants are outside the quantifier (counted in evidence).",
+    "DESIGN.md §3 C05",
+)
+
 NOT_APPLICABLE = {}
 
 ALL = ["C%02d" % i for i in range(1, 21)]
